@@ -272,6 +272,7 @@ pub fn run(ctx: &Ctx, rep: &mut Report) {
         }
         rep.completed.push(format!("k={k}"));
     }
+    rep.sample(json!({"k": 7, "sites": [3, 7, 38], "alleles": [[0, 1], [1, 0], [0, 2]], "flip": [false, true], "cut": 0, "oracle": "exactly the planted columns, modulo complement"}));
     // CLI sub-family: names from file names, both routes
     if !rep.capped {
         for k in [17usize, 31, 33] {
